@@ -1273,9 +1273,6 @@ class Fn:
                 a = self.assign_to(s.targets[0].id, val, vty, env, s)
             else: raise Unsupported("assignment target", s)
             return self.guarded(g, "py_seq\n%s\n%s" % (self.ind("py_assign (fun s => emit_out %s [] s)" % cols), self.ind(a))), True
-        if False:
-            a = None
-            return self.guarded(g, "py_seq\n%s\n%s" % (self.ind("py_assign (fun s => emit_out %s [] s)" % cols), self.ind(a))), True
         if isinstance(s, ast.Assign):
             t, ty, g = self.expr(s.value, env)
             n = s.targets[0].id
